@@ -238,3 +238,37 @@ func VerifH_C10_wt_frame_limit() { c15Script(10, 2, 0b00, false, false, 1) }
 // C09: the reader never panics on arbitrary bytes (free choice of calls): same oracle as C15.
 func VerifH_C09_wt_reader_bytes()  { c15Script(4, 2, -1, false, false, 2) }
 func VerifHT_C09_wt_reader_bytes6() { c15Script(6, 3, -1, false, false, 2) }
+
+// VerifH_C15_stale_reader: a reader kept from an earlier message and used again after
+// NextReader has moved on returns nothing (it must not deliver bytes of the next message,
+// which would be more than its own header declared), and the current message stays intact.
+func VerifH_C15_stale_reader() {
+	data := verif.Bytes(6)
+	rd := &fakeReader{data: data, fail: -1}
+	rd.chunk = [2]int{0, 1}[verif.Choose(2)]
+	c := NewConn(nil, &fakeStream{rd: rd, failAt: -1}, true, 16, 0, nil, nil, nil)
+	_, r1, err1 := c.NextReader()
+	if err1 != nil {
+		return
+	}
+	h1 := refParse(data, 0)
+	b := make([]byte, verif.Int(0, 3))
+	n1, _ := r1.Read(b)
+	_, r2, err2 := c.NextReader()
+	if err2 != nil {
+		return
+	}
+	off2 := refAdvance(0, h1, len(data))
+	h2 := refParse(data, off2)
+	verif.Assert(h2.ok, "the second message has a complete header")
+	old := make([]byte, 4)
+	n, err := r1.Read(old)
+	verif.Assert(n == 0 && err != nil, "a reader of an earlier message returns nothing once NextReader has moved on")
+	verif.Assert(uint64(n1+n) <= h1.ulen, "never more than its own header declared")
+	cur := make([]byte, 4)
+	m, _ := r2.Read(cur)
+	j := verif.Int(0, 3)
+	if j < m {
+		verif.Assert(cur[j] == data[off2+h2.size+j], "the current message is intact")
+	}
+}
